@@ -309,8 +309,8 @@ func (fc *FnCtx) unop(st *State, x *ssa.UnOp) Val {
 		return tv(Not(fc.term(x.X)))
 	case token.SUB:
 		v := fc.term(x.X)
-		if v.Sort == SF64 {
-			return tv(app(SF64, "fp.neg", v))
+		if isFloatSort(v.Sort) {
+			return tv(fc.TE.FOp("neg", v))
 		}
 		if v.Sort == SBV64 {
 			return tv(app(SBV64, "bvneg", v))
@@ -356,12 +356,12 @@ func (fc *FnCtx) binop(st *State, op token.Token, a, b Term, t types.Type, in ss
 	switch op {
 	case token.EQL:
 		if isF {
-			return app(SBool, "fp.eq", a, b)
+			return fc.TE.FOp("eq", a, b)
 		}
 		return Eq(a, b)
 	case token.NEQ:
 		if isF {
-			return Not(app(SBool, "fp.eq", a, b))
+			return Not(fc.TE.FOp("eq", a, b))
 		}
 		return Not(Eq(a, b))
 	}
@@ -374,23 +374,9 @@ func (fc *FnCtx) binop(st *State, op token.Token, a, b Term, t types.Type, in ss
 		}
 	}
 	if isF {
-		switch op {
-		case token.ADD:
-			return app(SF64, "fp.add RNE", a, b)
-		case token.SUB:
-			return app(SF64, "fp.sub RNE", a, b)
-		case token.MUL:
-			return app(SF64, "fp.mul RNE", a, b)
-		case token.QUO:
-			return app(SF64, "fp.div RNE", a, b)
-		case token.LSS:
-			return app(SBool, "fp.lt", a, b)
-		case token.LEQ:
-			return app(SBool, "fp.leq", a, b)
-		case token.GTR:
-			return app(SBool, "fp.gt", a, b)
-		case token.GEQ:
-			return app(SBool, "fp.geq", a, b)
+		fop := map[token.Token]string{token.ADD: "add", token.SUB: "sub", token.MUL: "mul", token.QUO: "div", token.LSS: "lt", token.LEQ: "leq", token.GTR: "gt", token.GEQ: "geq"}
+		if o, ok := fop[op]; ok {
+			return fc.TE.FOp(o, a, b)
 		}
 	}
 	if isS {
